@@ -74,7 +74,7 @@ const BUILDINGS: [&str; 3] = [
 
 const FFILES: [&str; 2] = [
     "#META CTE_FUENTE: prueba\nELECTRICIDAD, RED, SUMINISTRO, A, 0.311, 2.107, 0.401\nGASNATURAL, RED, SUMINISTRO, A, 0.007, 1.213, 0.255\nRED1, RED, SUMINISTRO, A, 0.611, 0.723, 0.111\nRED2, RED, SUMINISTRO, A, 0.255, 1.057, 0.222\nELECTRICIDAD, INSITU, A_RED, B, 0.201, 1.805, 0.301\n",
-    "ELECTRICIDAD, RED, SUMINISTRO, A, 0.523, 1.888, 0.299\nGASNATURAL, RED, SUMINISTRO, A, 0.011, 1.105, 0.244\n",
+    "ELECTRICIDAD, RED, SUMINISTRO, A, 0.523, 1.888, 0.299\nGASNATURAL, RED, SUMINISTRO, A, 0.011, 1.105, 0.244\nRED1, RED, SUMINISTRO, A, 0.402, 0.911, 0.177\n",
 ];
 
 fn num_v(valid: Vec<&'static str>, invalid: Vec<&'static str>) -> BoxedStrategy<V> {
